@@ -114,10 +114,17 @@ def _socket_drive(entry, pkmod, r, k, n_expected):
 
 def _explore_socket(t: Tally, stream, expected, entry, pkmod, r, k, case, stateful=True, max_execs=300_000):
     want = (tuple(expected), "ok")
+    def waiting(delivered, n_items):
+        # a record (prefix + packet) lies completely in the bytes delivered so far and has not been yielded: asking the socket for more now
+        # would hold that packet back for as long as the peer pauses
+        return len(framing.ref_frame(stream[:delivered], k)[0]) > n_items
+
     ex = EnvExplorer(stream, _socket_drive(entry, pkmod, r, k, len(expected)), stateful=stateful,
-                     max_execs=max_execs)
+                     max_execs=max_execs, waiting=waiting)
 
     def check(e):
+        if e.obs == want and e.starved is not None:
+            return (e.obs[0], f"recv() call #{e.starved[0]} was made with {e.starved[1]} bytes delivered and only {e.starved[2]} packet(s) yielded")
         return None if e.obs == want else e.obs
 
     vs = ex.explore(check)
@@ -132,6 +139,11 @@ def _explore_socket(t: Tally, stream, expected, entry, pkmod, r, k, case, statef
     if ex.uninspectable:
         t.notes.append("implementation frame not inspectable at some choice point: no state merging there")
     for sched, obs in vs:
+        if obs[0] == want[0] and isinstance(obs[1], str) and obs[1].startswith("recv() call"):
+            t.violation({"kind": "packet-held-back", "source": "socket"}, {**case, "source": "socket", "schedule": sched, "held_back": True},
+                        observed=obs[1], note="the framer asked the socket for more although a complete record was already delivered and not yet yielded: "
+                                              "with a peer that pauses, that packet is held back")
+            continue
         t.violation({"kind": "framing-mismatch", "source": "socket"},
                     {**case, "source": "socket", "schedule": sched},
                     expected={"packets": [p.hex() for p in expected]},
@@ -474,7 +486,7 @@ def run(ctx):
         "bound": (f"all sequences of <= {max_len} packets over a 3-packet palette (data lengths 1, 2, 5), prefix lengths "
                   f"{'0,1,4' if ctx.quick else '0..7'}; bytes; BytesIO and real file with every read size None,1..L+1; a gzip file object and a BufferedReader over a raw stream "
                   "delivering <= 3 bytes per raw read, read sizes None,1,7,L+1; "
-                  "scripted socket with read sizes {None,1,2,3,5,6,7,8,L} x EVERY fragmentation (state-hashed DFS); "
+                  "scripted socket with read sizes {None,1,2,3,5,6,7,8,L} x EVERY fragmentation (state-hashed DFS; also: no recv() while a complete record is delivered and unyielded); "
                   "both entry points; trim literal rewritten to {0,5,17} and reached for real with a 21 MB stream; "
                   "max-size packet; stateless cross-check of the state merging on short streams; sized sources (bytes, BytesIO with 5 read sizes) additionally on "
                   "every 4-packet sequence and on homogeneous/alternating sequences of 5..12 packets with prefix lengths 0,1,2,3,4,7, also with the trim literal rewritten to {0,5,17,40} so that the buffer is trimmed many times in one stream; "
@@ -544,8 +556,20 @@ def replay(case):
                 return 0
             full = min(n, remaining)
             return min(sched.pop(0), full) if sched else full
-        sock = ScriptedSocket(stream, decide, inspect=False)
-        obs = _socket_drive(entry, pkmod, case.get("r"), k, len(expected))(sock, lambda b: None)
+        yielded = [0]
+        starved = []
+
+        def decide_w(n, remaining, key, s_):
+            if len(framing.ref_frame(stream[:s_.delivered], k)[0]) > yielded[0]:
+                starved.append((s_.delivered, yielded[0]))
+            return decide(n, remaining, key, s_)
+        sock = ScriptedSocket(stream, decide_w, inspect=False)
+        obs = _socket_drive(entry, pkmod, case.get("r"), k, len(expected))(sock, lambda b: yielded.__setitem__(0, yielded[0] + 1))
+        if case.get("held_back"):
+            if starved:
+                return {"sig": {"kind": "packet-held-back", "source": "socket"}, "case": case,
+                        "observed": f"recv() with {starved[0][0]} bytes delivered and only {starved[0][1]} packet(s) yielded"}
+            return None
         if obs != (tuple(expected), "ok"):
             return {"sig": {"kind": "framing-mismatch", "source": "socket"}, "case": case,
                     "observed": {"packets": [p.hex() for p in obs[0]], "end": obs[1]}}
